@@ -74,6 +74,7 @@ type delivered struct {
 }
 
 type liveObs struct {
+	refused  bool // the observed Listen was refused because an earlier listener is still active
 	got      []delivered
 	panicked bool
 	panicMsg string
@@ -185,6 +186,12 @@ func (s *Live) observe(env *core.Env, opts LiveOpts) (obs liveObs) {
 		stop, err := midi.ListenTo(in, func(m midi.Message, ts int32) {
 			obs.got = append(obs.got, delivered{bytes: append([]byte{}, m...), alias: m, isNil: m == nil, ts: ts, chunk: cur})
 		}, o...)
+		if err != nil && s.Pre != nil && !s.PreStopped {
+			// a driver may refuse a second listener while the first is active: then this
+			// scenario says nothing about the options
+			obs.refused = true
+			return
+		}
 		if err != nil {
 			panic(err)
 		}
